@@ -143,6 +143,17 @@ pub fn drive_c19(a: &Args, out: &mut Out) {
                     "has_seq":with_seq,
                     "old": if with_seq { seq_json(&x) } else { json!([]) },
                     "new": if with_seq { seq_json(&y) } else { json!([]) }}));
+                // the same over items with a long hash input sharing its first 80 bytes
+                if r % 2 == 0 {
+                    let case = out.next_case();
+                    let o: Vec<rec::LongItem> = x.iter().map(|v| rec::LongItem(*v)).collect();
+                    let n: Vec<rec::LongItem> = y.iter().map(|v| rec::LongItem(*v)).collect();
+                    rec::reset_cmps();
+                    let mut h = CountHook::default();
+                    let ok = rec::guarded(|| diff_slices::<_, rec::LongItem>(alg, &mut h, &o, &n)).is_some();
+                    out.emit(&json!({"ev":"work","case":case,"alg":crate::fam_h::alg_name(alg),"family":fam,"items":"long_hash_input",
+                        "n":x.len(),"m":y.len(),"d":h.d,"cmps":rec::cmps(),"panic":!ok,"has_seq":false,"old":[],"new":[]}));
+                }
             }
         }
     }
